@@ -29,6 +29,7 @@ MODELS_ON = True
 THREAD_ALL = True
 MAX_AGE = 24
 LOG_MACROS = ("|m:debug", "|m:info", "|m:warn", "|m:error", "|m:trace", "|m:instrument", "|m:event", "|m:span", "|m:tracing", "|m:log", "|m:debug_span", "|m:info_span", "|m:warn_span", "|m:error_span", "|m:trace_span", "|m:enabled")
+LOOP_MODEL_HOSTS = ("polytune::mpc::protocol::validate",)
 PRESERVING = ("map", "map_err", "copied", "cloned", "as_ref", "as_mut", "as_deref", "as_deref_mut", "inspect", "inspect_err")
 
 _known = None
@@ -388,7 +389,7 @@ def _loc(l, ty=""):
     return {"l": l, "pr": [], "ty": ty}
 
 
-def _model(t):
+def _model(t, host=None):
     f = t.get("f") or {}
     if f.get("k") != "const" or t["d"]["pr"] or t["t"] is None:
         return None
@@ -496,6 +497,55 @@ def _model(t):
             {"s": [{"k": "assign", "p": _loc(0, dty), "r": _agg(OPTION, "None", 0, []), "sp": sp}], "t": {"k": "return", "sp": sp}},
             {"s": [], "t": _call_marker({"k": "move", "p": _loc(2, fty)}, [], _loc(3, ""), 3, sp)},
             {"s": [{"k": "assign", "p": _loc(0, dty), "r": _agg(OPTION, "Some", 1, [{"k": "move", "p": _loc(3, "")}]), "sp": sp}], "t": {"k": "return", "sp": sp}}])
+    # searching adaptors of Iterator (`find`, `any`, `all`, `position`) are the loop they abbreviate:
+    #     loop { match it.next() { None => return <exhausted>, Some(x) => if pred(x) { return <hit> } } }
+    # with the predicate spliced in, a test written inside the closure is a branch of the host function.  Applied only
+    # in the hosts listed in LOOP_MODEL_HOSTS (validators whose rules are path rules; the engine's protocol rules
+    # read `any(|v| v.len() != n)` as one idiom and are left alone).
+    if host and any(host == h or host.startswith(h + "::{") for h in LOOP_MODEL_HOSTS) and len(args) == 2 and has_closure(args[1]) \
+            and d in ("core::iter::traits::iterator::Iterator::find", "core::iter::traits::iterator::Iterator::any",
+                      "core::iter::traits::iterator::Iterator::all", "core::iter::traits::iterator::Iterator::position") \
+            and _ty_of(args[0]).startswith("&mut "):
+        aty = _ty_of(args[0])
+        ity = aty[5:]
+        fty = _ty_of(args[1])
+        item = dty[len(OPTION) + 1:-1] if name == "find" and dty.startswith(OPTION + "<") else ""
+        oty = OPTION + "<" + item + ">" if item else ""
+        nxt = {"k": "call", "f": {"k": "const", "ty": "fn:core::iter::traits::iterator::Iterator::next<" + ity + ">",
+                                  "fn": {"def": "core::iter::traits::iterator::Iterator::next", "krate": "core", "targs": [ity], "trait": "core::iter::traits::iterator::Iterator",
+                                         "res": "<" + ity + " as core::iter::traits::iterator::Iterator>::next", "res_krate": "core"}},
+               "args": [{"k": "move", "p": _loc(8, aty)}], "d": _loc(3, oty), "t": 1, "sp": sp}
+        some_payload = {"l": 3, "pr": [{"dc": "Some", "vi": 1}, {"f": 0, "n": "0", "a": OPTION, "ty": item}], "ty": item}
+        ret = {"k": "return", "sp": sp}
+        cst = lambda v: {"k": "use", "o": {"k": "const", "ty": "bool", "v": v}}
+        # locals: 0 ret, 1 &mut iter, 2 pred, 3 next result, 4 discr, 5 item, 6 &item, 7 pred result, 8 reborrow, 9 counter
+        locs = [dty, aty, fty, oty, "isize", item, "&" + item if item else "", "bool", aty, "usize"]
+        b0 = {"s": [{"k": "assign", "p": _loc(8, aty), "r": {"k": "ref", "m": "mut", "p": {"l": 1, "pr": ["*"], "ty": ity}}, "sp": sp}], "t": nxt}
+        b1 = {"s": [{"k": "assign", "p": _loc(4, "isize"), "r": {"k": "discr", "p": _loc(3, oty)}, "sp": sp}],
+              "t": {"k": "switch", "o": {"k": "move", "p": _loc(4, "isize")}, "ts": [["0", 2]], "else": 3, "sp": sp}}
+        take = {"k": "assign", "p": _loc(5, item), "r": {"k": "use", "o": {"k": "move", "p": some_payload}}, "sp": sp}
+        if name == "find":
+            b2 = {"s": [{"k": "assign", "p": _loc(0, dty), "r": _agg(OPTION, "None", 0, []), "sp": sp}], "t": ret}
+            b3 = {"s": [take, {"k": "assign", "p": _loc(6, "&" + item), "r": {"k": "ref", "m": "shared", "p": _loc(5, item)}, "sp": sp}],
+                  "t": _call_marker({"k": "move", "p": _loc(2, fty)}, [{"k": "move", "p": _loc(6, "&" + item)}], _loc(7, "bool"), 4, sp)}
+            b4 = {"s": [], "t": {"k": "switch", "o": {"k": "move", "p": _loc(7, "bool")}, "ts": [["0", 0]], "else": 5, "sp": sp}}
+            b5 = {"s": [{"k": "assign", "p": _loc(0, dty), "r": _agg(OPTION, "Some", 1, [{"k": "move", "p": _loc(5, item)}]), "sp": sp}], "t": ret}
+            return body("find", locs, [b0, b1, b2, b3, b4, b5])
+        if name in ("any", "all"):
+            hit = "true" if name == "any" else "false"
+            miss = "false" if name == "any" else "true"
+            b2 = {"s": [{"k": "assign", "p": _loc(0, "bool"), "r": cst(miss), "sp": sp}], "t": ret}
+            b3 = {"s": [take], "t": _call_marker({"k": "move", "p": _loc(2, fty)}, [{"k": "move", "p": _loc(5, item)}], _loc(7, "bool"), 4, sp)}
+            b4 = {"s": [], "t": {"k": "switch", "o": {"k": "move", "p": _loc(7, "bool")}, "ts": [["0", 0 if name == "any" else 5]], "else": 5 if name == "any" else 0, "sp": sp}}
+            b5 = {"s": [{"k": "assign", "p": _loc(0, "bool"), "r": cst(hit), "sp": sp}], "t": ret}
+            return body(name, locs, [b0, b1, b2, b3, b4, b5])
+        if name == "position":
+            b2 = {"s": [{"k": "assign", "p": _loc(0, dty), "r": _agg(OPTION, "None", 0, []), "sp": sp}], "t": ret}
+            b3 = {"s": [take], "t": _call_marker({"k": "move", "p": _loc(2, fty)}, [{"k": "move", "p": _loc(5, item)}], _loc(7, "bool"), 4, sp)}
+            b4 = {"s": [], "t": {"k": "switch", "o": {"k": "move", "p": _loc(7, "bool")}, "ts": [["0", 6]], "else": 5, "sp": sp}}
+            b5 = {"s": [{"k": "assign", "p": _loc(0, dty), "r": _agg(OPTION, "Some", 1, [{"k": "copy", "p": _loc(9, "usize")}]), "sp": sp}], "t": ret}
+            b6 = {"s": [{"k": "assign", "p": _loc(9, "usize"), "r": {"k": "bin", "op": "Add", "a": {"k": "copy", "p": _loc(9, "usize")}, "b": {"k": "const", "ty": "usize", "v": "1"}}, "sp": sp}], "t": {"k": "goto", "t": 0}}
+            return body("position", locs, [b0, b1, b2, b3, b4, b5, b6])
     # (`Result::ok` / `Result::err` are deliberately not modelled: R-ERR reads `.ok()` as "error discarded")
     if False and d in ("core::result::Result::<T, E>::ok", "core::result::Result::<T, E>::err") and len(args) == 1:
         rty = _ty_of(args[0])
@@ -666,7 +716,7 @@ def inline_program(bodies_by_tag):
                     ids = _callee_id(t) or []
                     cid = next((x for x in ids if x in cand), None)
                     if cid is None and MODELS_ON:
-                        mj = _model(t)
+                        mj = _model(t, j.get("owner"))
                         if mj is not None and len(j["blocks"]) < 6000:
                             nb0 = len(j["blocks"])
                             _splice(j, i, mj, report, tag)
@@ -838,6 +888,10 @@ def _relevant(j):
         for s in blk["s"]:
             if s["k"] == "assign" and s["r"]["k"] == "discr" and not s["r"]["p"]["pr"] and not s["p"]["pr"] and s["p"]["l"] == sw:
                 rel.add(s["r"]["p"]["l"])
+            # `match (a, b, opt) { (.., Some(x)) => .. }`: the discriminant is read from the tuple slot
+            if s["k"] == "assign" and s["r"]["k"] == "discr" and len(s["r"]["p"]["pr"]) == 1 and isinstance(s["r"]["p"]["pr"][0], dict) and "f" in s["r"]["p"]["pr"][0] \
+                    and not s["p"]["pr"] and s["p"]["l"] == sw:
+                rel.add(("T", s["r"]["p"]["l"], s["r"]["p"]["pr"][0]["f"]))
         if sw is not None:
             rel.add(sw)
         if t["k"] == "call" and len(t.get("args") or []) == 1 and t["args"][0].get("k") in ("copy", "move") and not t["args"][0]["p"]["pr"]:
@@ -969,6 +1023,9 @@ def _step_block(j, blk, st, esc, rel=None):
             elif r["k"] == "discr" and not r["p"]["pr"] and r["p"]["l"] in st and st[r["p"]["l"]][0] in (RESULT, OPTION, CFLOW):
                 val = ("discr", st[r["p"]["l"]][1])
                 st.pop(r["p"]["l"], None)      # use-once: the fact has served its purpose
+            elif r["k"] == "discr" and len(r["p"]["pr"]) == 1 and isinstance(r["p"]["pr"][0], dict) and "f" in r["p"]["pr"][0] \
+                    and st.get(("T", r["p"]["l"], r["p"]["pr"][0]["f"]), ("", 0))[0] in (RESULT, OPTION, CFLOW):
+                val = ("discr", st[("T", r["p"]["l"], r["p"]["pr"][0]["f"])][1])
             elif r["k"] == "un" and r.get("op") == "Not" and r["a"].get("k") in ("copy", "move") and not r["a"]["p"]["pr"] and st.get(r["a"]["p"]["l"], ("", 0))[0] == "bool":
                 val = ("bool", 1 - st[r["a"]["p"]["l"]][1])
         if val is not None:
